@@ -24,7 +24,8 @@ cCharsAll == { <<97>>, E2, U3, G4 }
 cRetain == { <<0,1,0,1,0,1,0,1,0,1,0,1,0,1,0,1,0,1,0,1,0,1>> }
 cRetainP == cRetain \cup { <<1,1,1,1,1,1,1,1,1,1,1,1,1,1,1,1,1,1,1,1,1,1>>, <<0>>, <<1,0,2>>, <<2>>, <<0,0,0,1,2>> }
 cItems == { << <<98>>, E2 >> }
-cItems2 == { << <<98>>, E2 >>, << G4, G4, G4, G4, <<120>> >>, <<>> }
+\* (the last one: an item that is itself longer than the inline limit - for strs / Display pieces only)
+cItems2 == { << <<98>>, E2 >>, << G4, G4, G4, G4, <<120>> >>, <<>>, << A17, <<98>> >> }
 cOpsCore == {"new","from_str","from_static","with_capacity","clone","drop","reserve","shrink_to",
              "push_str","pop","clear","truncate","remove","insert_str"}
 cOpsAll == cOpsCore \cup {"from_char","clone_from","retain","extend","collect","display","clone_ovf"}
